@@ -238,6 +238,26 @@ func (g *guardCtx) knownAt(site ast.Node, stack []ast.Node) []fact {
 			// `switch { case cond: ... }`: the clause's own condition holds in its body
 			if i > 0 {
 				if sw, ok := stack[i-1].(*ast.BlockStmt); ok && i > 1 {
+					if ss, ok := stack[i-2].(*ast.SwitchStmt); ok && ss.Tag == nil && ss.Body == sw {
+						// the conditions of all earlier clauses of a tagless switch are false when this clause is reached
+						// (its own conditions included, when one of them is being evaluated)
+						hasFallthrough := false
+						ast.Inspect(sw, func(n ast.Node) bool {
+							if b, ok := n.(*ast.BranchStmt); ok && b.Tok == token.FALLTHROUGH {
+								hasFallthrough = true
+							}
+							return true
+						})
+						for _, st := range sw.List {
+							cc, ok := st.(*ast.CaseClause)
+							if !ok || cc == p || hasFallthrough {
+								break
+							}
+							for _, c := range cc.List {
+								facts = append(facts, g.factsOf(c, false)...)
+							}
+						}
+					}
 					if ss, ok := stack[i-2].(*ast.SwitchStmt); ok && ss.Tag == nil && ss.Body == sw && len(p.List) == 1 {
 						inBody := false
 						for _, st := range p.Body {
